@@ -1100,9 +1100,9 @@ private:
                 return;
             }
             rate_identity = hashed_token_identity(token_it->second);
-        } else if (token_it != request.fields.end()) {
-            rate_identity = hashed_token_identity(token_it->second);
         }
+        // Without a configured token the TOKEN header is not authenticated and must not choose the rate-limit bucket:
+        // the limit is then per client address.
 
         std::chrono::seconds ttl = default_ttl;
         if (const auto ttl_it = request.fields.find("TTL"); ttl_it != request.fields.end()) {
@@ -1279,9 +1279,8 @@ private:
                 return;
             }
             rate_identity = hashed_token_identity(token_it->second);
-        } else if (token_it != fields.end()) {
-            rate_identity = hashed_token_identity(token_it->second);
         }
+        // An unauthenticated TOKEN header never selects the rate-limit bucket (see handle_store).
 
         const auto manifest_it = fields.find("MANIFEST");
         if (manifest_it == fields.end()) {
